@@ -311,8 +311,74 @@ def py_gather(lq, lm, cm, scaled, k, rem, ci, conf):
         "query_containment_ani_low", "query_containment_ani_high", "match_containment_ani_low", "match_containment_ani_high"))
 
 
+# ---------------------------------------------------------------------------------------------
+# the compare-level ANI entry points (sourmash.compare): "withheld" must become exactly 0.0, never a number
+
+_tmpdir = None
+
+
+def _compare_tmp():
+    """compare_parallel's to_memmap() leaves files in the temp dir: keep them under <build>/tmp and remove them at exit"""
+    global _tmpdir
+    if _tmpdir is None:
+        import shutil
+        import tempfile
+        build = os.environ.get("VERIF_BUILD") or os.path.join(
+            os.path.dirname(os.path.dirname(os.path.dirname(os.path.abspath(__file__)))), ".build")
+        os.makedirs(os.path.join(build, "tmp"), exist_ok=True)
+        _tmpdir = tempfile.mkdtemp(prefix="ani-compare-", dir=os.path.join(build, "tmp"))
+        tempfile.tempdir = _tmpdir
+        pid = os.getpid()
+        atexit.register(lambda: shutil.rmtree(_tmpdir, ignore_errors=True) if os.getpid() == pid else None)
+
+
+def _close_leaked_pool(exc):
+    import multiprocessing.pool
+    tb = exc.__traceback__
+    while tb is not None:
+        pool = tb.tb_frame.f_locals.get("pool")
+        if isinstance(pool, multiprocessing.pool.Pool):
+            pool.close()
+            pool.join()
+        tb = tb.tb_next
+
+
+def compare_ani(w):
+    from sourmash import SourmashSignature
+    from sourmash import compare as smc
+    la, lb, cm, scaled, k = (int(x) for x in w[1:6])
+    if w[6] not in ("0", "1") or k == 0 or scaled == 0 or cm > la or cm > lb or len(w) != 13:
+        return "bad-op"
+    for t in w[7:]:
+        if t not in ("?", "N") and not t.startswith("E"):
+            int(t)
+    _compare_tmp()
+    a, b = sketches(la, lb, cm, scaled, k)
+    sigs = [SourmashSignature(a, name="a"), SourmashSignature(b, name="b")]
+    out = [f"ref.acc={int(a.size_is_accurate())}{int(b.size_is_accurate())}",
+           "ref.c12=" + ob(a.containment_ani(b).ani), "ref.c21=" + ob(b.containment_ani(a).ani),
+           "ref.mc=" + ob(a.max_containment_ani(b).ani), "ref.j=" + _try(lambda: ob(a.jaccard_ani(b).ani))]
+
+    def run(f):
+        try:
+            M = f()
+            return ",".join(bits(M[i][j]) for i, j in ((0, 1), (1, 0)))
+        except Exception as e:      # noqa: BLE001
+            _close_leaked_pool(e)
+            return "E" + exc_name(e)
+    out.append("ser=" + run(lambda: smc.compare_all_pairs(sigs, False, downsample=False, n_jobs=None, return_ani=True)))
+    out.append("ser1=" + run(lambda: smc.compare_serial(sigs, False, downsample=False, return_ani=True)))
+    out.append("par=" + (run(lambda: smc.compare_all_pairs(sigs, False, downsample=False, n_jobs=2, return_ani=True)) if w[6] == "1" else "-"))
+    out.append("cont=" + run(lambda: smc.compare_serial_containment(sigs, return_ani=True)))
+    out.append("max=" + run(lambda: smc.compare_serial_max_containment(sigs, return_ani=True)))
+    out.append("avg=" + run(lambda: smc.compare_serial_avg_containment(sigs, return_ani=True)))
+    return "ok " + " ".join(out)
+
+
 def do(w):
     op = w[0]
+    if op == "cmpani" and len(w) >= 7:
+        return compare_ani(w)
     if op == "cls" and len(w) >= 12:
         return classes(w)
     if op == "clsnum" and len(w) == 6:
